@@ -476,6 +476,15 @@ func CheckC08(r *Report) {
 	plan := strPlanFor(r.Tier)
 	r.Rule = strRule("Oracle: for every accepted string, Vector() equals the reference canonical serialisation (spec order, X dropped, v2 group dropped iff all ND); parse-then-serialise of the canonical string is the identity.")
 	s := RunStrSpace(r, SCanon, plan)
+	// the serialiser side on objects built by Set (every reachable object equals a parse result): canonical spelling
+	cop := ObjPlan{T: 2, W: 8, WCap: 1 << 16, Rotations: 2, FullV2: false, Preds: PredCanonical}
+	if r.Tier == "thorough" {
+		cop = ObjPlan{T: 3, W: 10, WCap: 1 << 20, Rotations: 4, FullV2: false, Preds: PredCanonical}
+	}
+	st0 := r.States.Load()
+	runAllObj(r, cop, 0)
+	r.SetExtra("objects_whose_Vector_was_compared_with_the_canonical_spelling", r.States.Load()-st0)
+	r.Evaluations.Store(r.Transitions.Load())
 	r.Distinct.Store(s.NAccepted.Load())
 	r.Bound = strBound(plan)
 	r.Exhaustive = plan.v2Whole
@@ -510,9 +519,9 @@ func CheckC18(r *Report) {
 	s := RunStrSpace(r, SErrors, plan)
 	r.Distinct.Store(s.NClassed.Load())
 	// Get/Set error values
-	op := ObjPlan{T: 2, W: 6, WCap: 1 << 12, Rotations: 1, FullV2: false, Preds: PredIllegal}
+	op := ObjPlan{T: 2, W: 6, WCap: 1 << 12, Rotations: 1, FullV2: false, Preds: PredIllegal | PredErrKind}
 	runAllObj(r, op, 0)
-	getSetAlphabet(r)
+	getSetAlphabet(r, true)
 	r.Evaluations.Store(r.Transitions.Load())
 	r.Bound = strBound(plan) + "; Get/Set: full abbreviation x value alphabets on 7 states per version"
 	r.Exhaustive = false
